@@ -13,3 +13,8 @@ void Goldilocks::mult_avx_128(__m256i &c_h, __m256i &c_l, const __m256i &a, cons
 void Goldilocks::reduce_avx_128_64(__m256i &c, const __m256i &c_h, const __m256i &c_l)
 { uint64_t tc[4], th[4], tl[4]; CP4(th, c_h.v); CP4(tl, c_l.v); k_reduce_avx_128_64(tc, th, tl); CP4(c.v, tc); }
 #endif
+extern "C" void k_square_avx_128(uint64_t *ch, uint64_t *cl, const uint64_t *a);
+#ifdef FWD_SQUARE_128
+void Goldilocks::square_avx_128(__m256i &c_h, __m256i &c_l, const __m256i &a)
+{ uint64_t th[4], tl[4], ta[4]; CP4(ta, a.v); k_square_avx_128(th, tl, ta); CP4(c_h.v, th); CP4(c_l.v, tl); }
+#endif
